@@ -26,6 +26,11 @@ impl Prop for C07 {
         for _ in 0..(if th { 3 } else { 1 }) { v.push(case(&[("kind", "batch".into()), ("given", "payload".into()), ("n", (if th { 400 } else { 150 }).to_string()), ("plen", "13".into()), ("seed", rng.next().to_string())])); }
         v.push(case(&[("kind", "generate".into()), ("n", (if th { 5000 } else { 300 }).to_string())]));
         for what in ["pass-encrypt", "encrypt", "key-generate", "change-pass", "change-pass-same"] { v.push(case(&[("kind", "cli".into()), ("what", what.into()), ("n", (if th { 120 } else { 16 }).to_string()), ("seed", rng.next().to_string())])); }
+        // a sink that is briefly unavailable (one failing write somewhere in the stream, every error kind in turn): whenever the encryption reports
+        // success all the same, the records in the output carry the counters 0,1,2,… once each — a restarted loop would seal two chunks under nonce 0
+        for mode in ["key", "pass"] { for plen in [65536usize * 2 + 5, 65536 * 3] { v.push(case(&[("kind", "busy-sink".into()), ("mode", mode.into()), ("plen", plen.to_string()), ("seed", rng.next().to_string())])); } }
+        // counters 2^32 (and more) apart: one plaintext sealed under one key must give unrelated ciphertexts, and each opens under its own counter only
+        for _ in 0..(if th { 40 } else { 8 }) { v.push(case(&[("kind", "nonce-pairs".into()), ("seed", rng.next().to_string())])); }
         for &cs in &[1usize, 2, 4] { for n in 1..=6usize { for rep in 0..(if th { 6 } else { 2 }) {
             v.push(case(&[("kind", "nonces".into()), ("cs", cs.to_string()), ("n", n.to_string()), ("rep", rep.to_string()), ("seed", rng.next().to_string())]));
         } } }
@@ -36,6 +41,41 @@ impl Prop for C07 {
         let kind = get(c, "kind");
         o.tags.push(kind.to_string());
         match kind {
+            "busy-sink" => {
+                let mut rng = Rng::new(get(c, "seed").parse().unwrap_or(0));
+                let keym = get(c, "mode") == "key"; let plen = getn(c, "plen"); let p = rng.bytes(plen);
+                let (s, r) = (rng.bytes(32), rng.bytes(32)); let (spk, rpk) = (pub_of(&s), pub_of(&r)); let salt = rng.bytes(32);
+                let hdr = if keym { 132 } else { 36 };
+                o.nontrivial = Some(format!("busy-sink/{}/{}", get(c, "mode"), plen));
+                let mut successes = 0usize;
+                // the fault-free run makes 2 header writes + 2 per record; fail write number k for every k (the kind of the error varies with k)
+                for k in 0..14usize {
+                    let mut ws: Vec<crate::sio::WrEv> = (0..k).map(|_| crate::sio::WrEv::Accept(usize::MAX)).collect(); ws.push(crate::sio::WrEv::ErrOther);
+                    let f = if keym { imp::key_encrypt(&s, &spk, &rpk, None, None, &p, &Scripts { rs: &[], ws: &ws, fs: &[] }) } else { imp::pass_encrypt(b"pw", &salt, &p, &Scripts { rs: &[], ws: &ws, fs: &[] }) };
+                    o.validated += 1;
+                    if f.res != "ok" { continue; }
+                    successes += 1;
+                    // walk the records of what reached the sink
+                    let mut off = hdr; let mut ctrs: Vec<u64> = vec![];
+                    while off + 16 <= f.out.len() { let ctr = u64::from_be_bytes(f.out[off..off + 8].try_into().unwrap()); let len = u32::from_be_bytes(f.out[off + 12..off + 16].try_into().unwrap()) as usize; ctrs.push(ctr); off += 16 + len + 16; }
+                    let want: Vec<u64> = (0..ctrs.len() as u64).collect();
+                    if ctrs != want || off != f.out.len() { o.oracle_fail = Some(("nonce-used-once".into(), format!("{} mode, {} bytes, write call {} of the stream failed once: the encryption reported success and the sink holds records with the counters {:?} (each counter is the AEAD nonce under the one file key)", get(c, "mode"), plen, k, ctrs))); o.impl_obs = format!("counters {:?}", ctrs); return o; }
+                }
+                o.impl_obs = format!("14 fault positions, {} reported success, counters sequential", successes); o.model_obs = "a failing write is an error: no success expected".into();
+            }
+            "nonce-pairs" => {
+                let mut rng = Rng::new(get(c, "seed").parse().unwrap_or(0));
+                let key = rng.bytes(32); let adl = rng.below(20); let ad = rng.bytes(adl); let pt = rng.bytes(40);
+                let base = rng.next() % (1u64 << 31);
+                let ctrs: Vec<u64> = vec![base, base + (1u64 << 32), base + (3u64 << 32), base + (1u64 << 40), base + (1u64 << 63), base ^ (1u64 << 33)];
+                o.nontrivial = Some(format!("nonce-pairs/{}", base)); o.validated += 1;
+                let cts: Vec<Vec<u8>> = ctrs.iter().map(|&n| kestrel_crypto::verif_chapoly_noise_encrypt(&key, n, &ad, &pt)).collect();
+                for i in 0..ctrs.len() { for j in 0..ctrs.len() { if i == j { continue; }
+                    if cts[i] == cts[j] { o.oracle_fail = Some(("distinct-counters-distinct-nonces".into(), format!("counters {} and {} (same key, same plaintext) give the same ciphertext: they are mapped to the same 96-bit nonce", ctrs[i], ctrs[j]))); return o; }
+                    if kestrel_crypto::verif_chapoly_noise_decrypt(&key, ctrs[j], &ad, &cts[i]).is_ok() { o.oracle_fail = Some(("distinct-counters-distinct-nonces".into(), format!("a chunk sealed under counter {} opens under counter {}", ctrs[i], ctrs[j]))); return o; }
+                } }
+                o.impl_obs = format!("{} counters up to 2^63 apart: pairwise different ciphertexts, each opens under its own counter only", ctrs.len()); o.model_obs = "nonce = 0^32 || le64(counter) is injective (C07_nonce_injective)".into();
+            }
             "batch" => {
                 let mut rng = Rng::new(get(c, "seed").parse().unwrap_or(0));
                 let (s, r) = (rng.bytes(32), rng.bytes(32)); let (spk, rpk) = (pub_of(&s), pub_of(&r));
